@@ -581,8 +581,8 @@ def c08_post(pid, jobs, out_dir, save_violation):
 PLAN["C08"] = {
     "pkg": "c08",
     "tests": [
-        {"name": "TestDeterminism", "quick": (1600, 12), "thorough": (48000, 16)},
-        {"name": "TestDeterminismDeep", "quick": (6400, 8), "thorough": (96000, 16)},
+        {"name": "TestDeterminism", "quick": (1600, 8), "thorough": (48000, 16)},
+        {"name": "TestDeterminismDeep", "quick": (4800, 16), "thorough": (96000, 16)},
         {"name": "TestDigests", "same_seed": True, "quick": (600, 4), "thorough": (3000, 8)},
         {"name": "TestLegacyMigrationDeterminism", "quick": (4000, 4), "thorough": (200000, 8)},
     ],
